@@ -18,7 +18,7 @@ from . import gen, kit
 from .sched import LineTracer, SimAbort
 
 PROP = "C05"
-HOST_NAMES = ["hf_add1", "hf_boom", "size"]
+HOST_NAMES = ["hf_add1", "hf_boom", "size", "hf_refuse"]
 
 
 # --------------------------------------------------------------------------------------------
@@ -136,8 +136,10 @@ def generate(seed: int, tier: str = "quick") -> Dict[str, Any]:
         elif kind == "P":
             a = rw.choice(unprog) if unprog and rw.random() < 0.85 else rw.choice(asts)
             fspec = None
-            if a["host"] and rw.random() < 0.85:
-                fspec = {"style": rw.choice(["dict", "list"]), "names": a["host"]}
+            if a["host"] and rw.random() < (0.5 if a["progd"] else 0.85):
+                # (a second program from the same AST often differs in the functions it binds)
+                fspec = {"style": rw.choice(["dict", "list"]), "names": a["host"],
+                         "shared": rw.random() < 0.4}
             elif rw.random() < 0.05:
                 fspec = {"style": rw.choice(["dict", "list"]), "names": ["size"]}
             op = {"op": "P", "id": len(progs), "ast": a["id"], "env": a["env"], "functions": fspec}
